@@ -230,6 +230,26 @@ theorem C20_generated_aggregate_model (chosen : List (String → Cell)) (columns
   rw [hwc]
   cases aggColumn (lookupAgg Gen.paramAggregator Gen.default_aggregator c) (chosen.map (· c)) (chosen.map (· "Area")) <;> rfl
 
+/-! ### gathering the subsample results -/
+
+theorem gather_loop_eq {D : Type} (is_none is_dict : D → Bool) (all l acc : List D) :
+    Gen.gather_subsample_descriptions_loop1 is_none is_dict all l acc = acc ++ l.filter (fun r => !is_none r && is_dict r) := by
+  induction l generalizing acc with
+  | nil => simp [Gen.gather_subsample_descriptions_loop1]
+  | cons r rest ih =>
+    simp only [Gen.gather_subsample_descriptions_loop1]
+    cases hn : is_none r <;> cases hd : is_dict r <;> simp [ih, hn, hd]
+
+/-- **Nothing but the failed samples is lost between sampling and grouping.** The regenerated `gather_subsample_descriptions` returns, in their
+order, exactly the results that are not `None` and are dicts: a failed sample anywhere in the list (first, in the middle, several) removes itself and
+nothing else.  Together with `C20_generated_group` / `C20_group_partition`: every successful description ends up in exactly one group. -/
+theorem C20_generated_gather {D : Type} (is_none is_dict : D → Bool) (rs : List D) :
+    Gen.gather_subsample_descriptions is_none is_dict rs = rs.filter (fun r => !is_none r && is_dict r) := by
+  unfold Gen.gather_subsample_descriptions
+  simp [gather_loop_eq]
+
+example : Gen.gather_subsample_descriptions (fun (r : Option Nat) => r.isNone) (fun _ => true) [some 1, none, some 2, none, some 3] = [some 1, some 2, some 3] := by decide
+
 /-- random radius lies in [r_min, r_max) for u in [0,1) -/
 theorem C20_radius_range (rmin rmax u : Rat) (h : rmin < rmax) (hu0 : 0 ≤ u) (hu1 : u < 1) :
     rmin ≤ Gen.random_radius rmin rmax u ∧ Gen.random_radius rmin rmax u < rmax := by
